@@ -7,11 +7,102 @@
    model, under which levels, stored levels and children agree.  Only the ids of nodes that
    the swap creates are free (the manager re-uses slots it has just freed; the model takes
    ids above all ids in use).  Reference counters are not compared (not modelled; the exact
-   count is audited on every snapshot anyway). *)
+   count is audited on every snapshot anyway).
+
+   [check_order]: the same for a whole set_var_order / set_var_order_seq on a table without
+   empty levels (there the implementation performs exactly the adjacent swaps of its bubble
+   sort, in that order): the extracted sort_order and bubble_sort give the swaps, the extracted
+   level_swap performs them one after the other (= Model.set_var_order_model, unfolded so that
+   the ids that survive from the first table can be told from re-used ones). *)
 open Conv
 open Dd_types
 
 let pid (p : Model.positive) = Z.to_string (Z.pred (z_of_pos p))
+
+(* isomorphism between the model's table [m] and the manager's table [ps]; [orig id] = the id
+   existed before the operation and has been stored ever since (it must keep its identity) *)
+let iso (orig : Model.positive -> bool) (m : Model.snap) (ps : psnap) (what : string) : (unit, string * string) result =
+  let ints l = List.map int_of_nat l in
+  let show l = String.concat " " (List.map string_of_int l) in
+  if ints m.Model.s_v2l <> Array.to_list ps.v2l || ints m.Model.s_l2v <> Array.to_list ps.l2v then
+    Error ("corr", Printf.sprintf "%s: model var_to_level [%s] level_to_var [%s], implementation [%s] / [%s]"
+             what (show (ints m.Model.s_v2l)) (show (ints m.Model.s_l2v))
+             (show (Array.to_list ps.v2l)) (show (Array.to_list ps.l2v)))
+  else begin
+    (* (the manager's table is audited by wf_full_b on every snapshot: an isomorphic model table is well-formed too) *)
+    let mh = List.map (fun (s, e) -> (int_of_n s, show_edge e)) m.Model.s_handles in
+    let ih = List.map (fun (s, e) -> (s, show_edge e)) ps.handles in
+    if mh <> ih then Error ("corr", Printf.sprintf "%s: handle edges differ between model and implementation" what)
+    else begin
+      let mnodes = m.Model.s_nodes and inodes = ps.snap.Model.s_nodes in
+      let phi : (string, Model.positive) Hashtbl.t = Hashtbl.create 256 in   (* model id -> manager id *)
+      let inv : (string, Model.positive) Hashtbl.t = Hashtbl.create 256 in   (* manager id -> model id *)
+      let work = Queue.create () in
+      let err = ref None in
+      let fail_ msg = if !err = None then err := Some msg in
+      let bind (a : Model.positive) (b : Model.positive) =
+        match Hashtbl.find_opt phi (pid a), Hashtbl.find_opt inv (pid b) with
+        | Some b', _ when pid b' <> pid b ->
+          fail_ (Printf.sprintf "model node n%s corresponds to both n%s and n%s of the manager" (pid a) (pid b') (pid b))
+        | _, Some a' when pid a' <> pid a ->
+          fail_ (Printf.sprintf "manager node n%s corresponds to both n%s and n%s of the model" (pid b) (pid a') (pid a))
+        | Some _, _ -> ()
+        | None, _ -> Hashtbl.replace phi (pid a) b; Hashtbl.replace inv (pid b) a; Queue.add (a, b) work
+      in
+      (* ids that existed before and survive in the model keep their id *)
+      List.iter (fun (id, _) -> if orig id then bind id id) (Model.PositiveMap.elements mnodes);
+      while !err = None && not (Queue.is_empty work) do
+        let a, b = Queue.pop work in
+        match Model.PositiveMap.find a mnodes, Model.PositiveMap.find b inodes with
+        | None, _ -> fail_ (Printf.sprintf "model refers to the missing node n%s" (pid a))
+        | Some _, None ->
+          fail_ (Printf.sprintf "node n%s of the model's result is not stored in the manager afterwards" (pid a))
+        | Some x, Some y ->
+          if int_of_nat x.Model.nlevel <> int_of_nat y.Model.nlevel then
+            fail_ (Printf.sprintf "node n%s: level %d in the model, %d in the manager" (pid b)
+                     (int_of_nat x.Model.nlevel) (int_of_nat y.Model.nlevel))
+          else if int_of_nat x.Model.nstored <> int_of_nat y.Model.nstored then
+            fail_ (Printf.sprintf "node n%s: stored level %d in the model, %d in the manager" (pid b)
+                     (int_of_nat x.Model.nstored) (int_of_nat y.Model.nstored))
+          else if List.length x.Model.nchildren <> List.length y.Model.nchildren then
+            fail_ (Printf.sprintf "node n%s: different number of children" (pid b))
+          else
+            List.iter2
+              (fun (ex : Model.edge) (ey : Model.edge) ->
+                let differ () =
+                  fail_ (Printf.sprintf "node n%s: children [%s] in the model, [%s] in the manager" (pid b)
+                           (String.concat " " (List.map show_edge x.Model.nchildren))
+                           (String.concat " " (List.map show_edge y.Model.nchildren))) in
+                if ex.Model.etag <> ey.Model.etag then fail_ (Printf.sprintf "node n%s: child tags differ" (pid b))
+                else
+                  match ex.Model.eref, ey.Model.eref with
+                  | Model.RT t, Model.RT u -> if string_of_n t <> string_of_n u then differ ()
+                  | Model.RN c, Model.RN d -> bind c d
+                  | _, _ -> differ ())
+              x.Model.nchildren y.Model.nchildren
+      done;
+      (match !err with
+       | None ->
+         (* every node of either side takes part in the correspondence *)
+         List.iter
+           (fun (id, _) ->
+             if not (Hashtbl.mem phi (pid id)) then
+               fail_ (Printf.sprintf "node n%s of the model's result has no counterpart in the manager" (pid id)))
+           (Model.PositiveMap.elements mnodes);
+         List.iter
+           (fun (id, (nd : Model.node)) ->
+             if not (Hashtbl.mem inv (pid id)) then
+               fail_ (Printf.sprintf "manager node n%s (level %d, children %s) does not exist in the model's result" (pid id)
+                        (int_of_nat nd.Model.nlevel) (String.concat " " (List.map show_edge nd.Model.nchildren))))
+           (Model.PositiveMap.elements inodes)
+       | Some _ -> ());
+      match !err with
+      | None -> Ok ()
+      | Some msg -> Error ("corr", Printf.sprintf "%s: %s" what msg)
+    end
+  end
+
+let mem (m : Model.node Model.PositiveMap.t) (id : Model.positive) = Model.PositiveMap.find id m <> None
 
 (* Ok () | Error (kind, message) *)
 let check (pp : psnap) (ps : psnap) (i : int) : (unit, string * string) result =
@@ -23,97 +114,57 @@ let check (pp : psnap) (ps : psnap) (i : int) : (unit, string * string) result =
   else begin
     let m = Model.level_swap pp.snap (nat i) in
     stat "c08_swaps_replayed" 1;
-    let ints l = List.map int_of_nat l in
-    let show l = String.concat " " (List.map string_of_int l) in
-    if ints m.Model.s_v2l <> Array.to_list ps.v2l || ints m.Model.s_l2v <> Array.to_list ps.l2v then
-      Error ("corr", Printf.sprintf "level_down(%d): model var_to_level [%s] level_to_var [%s], implementation [%s] / [%s]"
-               i (show (ints m.Model.s_v2l)) (show (ints m.Model.s_l2v))
-               (show (Array.to_list ps.v2l)) (show (Array.to_list ps.l2v)))
-    else if not (Model.wf_b m) then
-      Error ("corr", Printf.sprintf "level_down(%d): the model's result is not well-formed (contradicts C08_level_swap_wf)" i)
-    else begin
-      let mh = List.map (fun (s, e) -> (int_of_n s, show_edge e)) m.Model.s_handles in
-      let ih = List.map (fun (s, e) -> (s, show_edge e)) ps.handles in
-      if mh <> ih then Error ("corr", Printf.sprintf "level_down(%d): handle edges differ between model and implementation" i)
-      else begin
-        let mnodes = m.Model.s_nodes and inodes = ps.snap.Model.s_nodes in
-        let phi : (string, Model.positive) Hashtbl.t = Hashtbl.create 256 in   (* model id -> manager id *)
-        let inv : (string, Model.positive) Hashtbl.t = Hashtbl.create 256 in   (* manager id -> model id *)
-        let work = Queue.create () in
-        let err = ref None in
-        let fail_ msg = if !err = None then err := Some msg in
-        let bind (a : Model.positive) (b : Model.positive) =
-          match Hashtbl.find_opt phi (pid a), Hashtbl.find_opt inv (pid b) with
-          | Some b', _ when pid b' <> pid b ->
-            fail_ (Printf.sprintf "model node n%s corresponds to both n%s and n%s of the manager" (pid a) (pid b') (pid b))
-          | _, Some a' when pid a' <> pid a ->
-            fail_ (Printf.sprintf "manager node n%s corresponds to both n%s and n%s of the model" (pid b) (pid a') (pid a))
-          | Some _, _ -> ()
-          | None, _ -> Hashtbl.replace phi (pid a) b; Hashtbl.replace inv (pid b) a; Queue.add (a, b) work
-        in
-        (* ids that existed before and survive in the model keep their id *)
-        let created = ref 0 in
-        List.iter
-          (fun (id, _) ->
-            match Model.PositiveMap.find id pp.snap.Model.s_nodes with
-            | Some _ -> bind id id
-            | None -> incr created)
-          (Model.PositiveMap.elements mnodes);
-        stat "c08_swap_new_nodes" !created;
-        stat "c08_swap_removed_nodes"
-          (List.length (List.filter (fun (id, _) -> Model.PositiveMap.find id mnodes = None)
-                          (Model.PositiveMap.elements pp.snap.Model.s_nodes)));
-        while !err = None && not (Queue.is_empty work) do
-          let a, b = Queue.pop work in
-          match Model.PositiveMap.find a mnodes, Model.PositiveMap.find b inodes with
-          | None, _ -> fail_ (Printf.sprintf "model refers to the missing node n%s" (pid a))
-          | Some _, None ->
-            fail_ (Printf.sprintf "node n%s of the model's result is not stored in the manager after the swap" (pid a))
-          | Some x, Some y ->
-            if int_of_nat x.Model.nlevel <> int_of_nat y.Model.nlevel then
-              fail_ (Printf.sprintf "node n%s: level %d in the model, %d in the manager" (pid b)
-                       (int_of_nat x.Model.nlevel) (int_of_nat y.Model.nlevel))
-            else if int_of_nat x.Model.nstored <> int_of_nat y.Model.nstored then
-              fail_ (Printf.sprintf "node n%s: stored level %d in the model, %d in the manager" (pid b)
-                       (int_of_nat x.Model.nstored) (int_of_nat y.Model.nstored))
-            else if List.length x.Model.nchildren <> List.length y.Model.nchildren then
-              fail_ (Printf.sprintf "node n%s: different number of children" (pid b))
-            else
-              List.iter2
-                (fun (ex : Model.edge) (ey : Model.edge) ->
-                  if ex.Model.etag <> ey.Model.etag then fail_ (Printf.sprintf "node n%s: child tags differ" (pid b))
-                  else
-                    match ex.Model.eref, ey.Model.eref with
-                    | Model.RT t, Model.RT u ->
-                      if string_of_n t <> string_of_n u then
-                        fail_ (Printf.sprintf "node n%s: children [%s] in the model, [%s] in the manager" (pid b)
-                                 (String.concat " " (List.map show_edge x.Model.nchildren))
-                                 (String.concat " " (List.map show_edge y.Model.nchildren)))
-                    | Model.RN c, Model.RN d -> bind c d
-                    | _, _ ->
-                      fail_ (Printf.sprintf "node n%s: children [%s] in the model, [%s] in the manager" (pid b)
-                               (String.concat " " (List.map show_edge x.Model.nchildren))
-                               (String.concat " " (List.map show_edge y.Model.nchildren))))
-                x.Model.nchildren y.Model.nchildren
-        done;
-        (match !err with
-         | None ->
-           (* every node of either side takes part in the correspondence *)
-           List.iter
-             (fun (id, _) ->
-               if not (Hashtbl.mem phi (pid id)) then
-                 fail_ (Printf.sprintf "node n%s of the model's result has no counterpart in the manager" (pid id)))
-             (Model.PositiveMap.elements mnodes);
-           List.iter
-             (fun (id, (nd : Model.node)) ->
-               if not (Hashtbl.mem inv (pid id)) then
-                 fail_ (Printf.sprintf "manager node n%s (level %d, children %s) does not exist in the model's result" (pid id)
-                          (int_of_nat nd.Model.nlevel) (String.concat " " (List.map show_edge nd.Model.nchildren))))
-             (Model.PositiveMap.elements inodes)
-         | Some _ -> ());
-        match !err with
-        | None -> stat "c08_swaps_isomorphic" 1; Ok ()
-        | Some msg -> Error ("corr", Printf.sprintf "level_down(%d): %s" i msg)
-      end
-    end
+    stat "c08_swap_new_nodes"
+      (List.length (List.filter (fun (id, _) -> not (mem pp.snap.Model.s_nodes id)) (Model.PositiveMap.elements m.Model.s_nodes)));
+    stat "c08_swap_removed_nodes"
+      (List.length (List.filter (fun (id, _) -> not (mem m.Model.s_nodes id)) (Model.PositiveMap.elements pp.snap.Model.s_nodes)));
+    match iso (mem pp.snap.Model.s_nodes) m ps (Printf.sprintf "level_down(%d)" i) with
+    | Ok () -> stat "c08_swaps_isomorphic" 1; Ok ()
+    | e -> e
+  end
+
+(* the model's unique-table lookup and reference test are linear scans: whole reorderings are replayed on
+   tables up to this size only (single swaps always) *)
+let max_nodes = match Sys.getenv_opt "C08_REPLAY_MAX_NODES" with Some v -> int_of_string v | None -> 1200
+
+(* set_var_order(req) between the snapshots [pp] and [ps]; [None] = not applicable *)
+let check_order (pp : psnap) (ps : psnap) (req : int list) : (unit, string * string) result option =
+  let n = Array.length pp.l2v in
+  let distinct = List.length (List.sort_uniq compare req) = List.length req in
+  let nonempty =
+    let cnt = Array.make (max n 1) 0 in
+    List.iter (fun (_, (nd : Model.node)) -> let l = int_of_nat nd.Model.nlevel in if l < n then cnt.(l) <- cnt.(l) + 1)
+      (Model.PositiveMap.elements pp.snap.Model.s_nodes);
+    n > 0 && Array.for_all (fun c -> c > 0) cnt in
+  if List.length req < 2 || (not distinct) || List.exists (fun v -> v < 0 || v >= n) req then None
+  else if not nonempty then (stat "c08_order_skipped_empty_level" 1; None)
+  else if pp.nnodes > max_nodes then (stat "c08_order_skipped_large" 1; None)
+  else if not (Model.wf_b pp.snap) then
+    Some (Error ("corr", "snapshot before the reordering is not well-formed (hypothesis of the set_var_order_model theorems)"))
+  else begin
+    let levels = List.map (fun v -> nat pp.v2l.(v)) req in
+    let target = Model.sort_order (nat n) levels in
+    let _, swaps = Model.bubble_sort target in
+    stat "c08_orders_replayed" 1;
+    stat "c08_order_swaps" (List.length swaps);
+    let orig : (string, unit) Hashtbl.t = Hashtbl.create 256 in
+    List.iter (fun (id, _) -> Hashtbl.replace orig (pid id) ()) (Model.PositiveMap.elements pp.snap.Model.s_nodes);
+    let m =
+      List.fold_left
+        (fun s k ->
+          let s' = Model.level_swap s k in
+          Hashtbl.filter_map_inplace (fun id () -> if mem s'.Model.s_nodes (pos_of_z (Z.succ (Z.of_string id))) then Some () else None) orig;
+          s')
+        pp.snap swaps in
+    (* the unfolded composition is the model the theorems are about *)
+    let m' = Model.set_var_order_model pp.snap (List.map nat req) in
+    if List.map (fun (id, _) -> pid id) (Model.PositiveMap.elements m.Model.s_nodes)
+       <> List.map (fun (id, _) -> pid id) (Model.PositiveMap.elements m'.Model.s_nodes)
+       || List.map int_of_nat m.Model.s_v2l <> List.map int_of_nat m'.Model.s_v2l then
+      Some (Error ("corr", "driver: the swap-by-swap replay differs from Model.set_var_order_model"))
+    else
+      match iso (fun id -> Hashtbl.mem orig (pid id)) m ps
+              (Printf.sprintf "set_var_order [%s]" (String.concat " " (List.map string_of_int req))) with
+      | Ok () -> stat "c08_orders_isomorphic" 1; Some (Ok ())
+      | e -> Some e
   end
